@@ -162,6 +162,19 @@ def gen_program(rng, features=None, n_nodes=None, n_modules=None):
         bare = [c["to"] for c in nd["calls"] if c["form"] == "bare"]
         if nd["nested"] is not None and bare and rng.random() < F.get("p_shadow", 0.25):
             nd["shadow"] = bare[rng.randrange(len(bare))]
+    if rng.random() < F.get("p_twins", 0.2) and len(nodes) <= 8:
+        # two plain helpers produced by ONE factory function (closures that differ in a default value only), both
+        # used by one function
+        callers = [nd for nd in nodes if pkg[nd["module"]] == 0 and not nd.get("frozen") and not nd.get("noauto") and nd["explicit"] is None]
+        if callers:
+            cal = callers[rng.randrange(len(callers))]
+            for t in range(2):
+                nid = len(nodes)
+                nodes.append({"id": nid, "name": "h%d" % nid, "module": cal["module"], "kind": "plain", "explicit": None, "salt": None,
+                              "const": 1 + t, "nested": None, "setc": None, "tup": None, "fstr": None, "posdef": None, "kwdef": None,
+                              "globals": [], "calls": [], "recur": False, "nestkind": "lambda", "deco": None, "fparams": [],
+                              "builtin": None, "made": True})
+                cal["calls"].append({"to": nid, "form": "bare"})
     prog = {"modules": mods, "pkg": pkg, "nodes": nodes, "globals": glob, "order": {}, "bshadow": {}}
     if rng.random() < F.get("p_inith", 0.25):
         # a plain helper defined in the package's __init__.py, used by functions of its sub-modules
@@ -261,7 +274,8 @@ def mod_alias(mi):
 
 def header(prog, mi, base=None):
     lines = ["import twosigma.memento as m", "import functools as _vft", "",
-             "def _vdeco(fn):", "    @_vft.wraps(fn)", "    def wrapper(*a, **k):", "        return fn(*a, **k)", "    return wrapper", ""]
+             "def _vdeco(fn):", "    @_vft.wraps(fn)", "    def wrapper(*a, **k):", "        return fn(*a, **k)", "    return wrapper", "",
+             "def _vmk(n, c):", "    def made(x, n=n, k=c):", "        __vtrace__(n, x)", "        return [n, x, k]", "    return made", ""]
     if prog.get("inith") and any(nd.get("usesinit") and nd["module"] == mi for nd in prog["nodes"]):
         lines.append("from . import hinit")
     for mj in range(mi + 1, len(prog["modules"])):
@@ -351,6 +365,8 @@ def render_node(prog, nid, decorator="m.memento_function"):
     nd = prog["nodes"][nid]
     if nd["kind"] == "foreign":
         return '%s = __import__("operator").neg\n' % nd["name"]
+    if nd.get("made") and nd["kind"] == "plain":
+        return '%s = _vmk("%s", %d)\n' % (nd["name"], nd["name"], nd["const"])
     params = ["x"]
     if nd["posdef"] is not None:
         params.append("y=%d" % nd["posdef"])
@@ -660,6 +676,8 @@ def gen_edit(rng, prog, counter, weights=None):
         nd = nodes[rng.randrange(len(nodes))]
         if nd.get("noauto") and kind in ("swap_kind", "insert_helper", "retarget"):
             continue
+        if nd.get("made") and kind not in ("const", "global", "add_edge", "del_edge", "retarget", "explicit_body", "define_builtin", "inith"):
+            continue
         if nd.get("frozen") or (kind in ("swap_kind", "insert_helper", "toggle_recur") and (prog.get("pkg") or [0])[min(nd["module"], len(prog.get("pkg") or [0]) - 1)]):
             continue
         v = counter + 2
@@ -686,7 +704,7 @@ def gen_edit(rng, prog, counter, weights=None):
         if kind == "add_edge":
             cands = [(a["id"], b["id"]) for a in nodes for b in nodes
                      if b["id"] > a["id"] and b["module"] >= a["module"] and not any(c["to"] == b["id"] for c in a["calls"])
-                     and not reaches(prog, b["id"], a["id"]) and not a.get("frozen")
+                     and not reaches(prog, b["id"], a["id"]) and not a.get("frozen") and not a.get("made")
                      and (pkg_of(prog, a["module"]) == pkg_of(prog, b["module"]) or b["kind"] == "memento" or b.get("frozen"))]
             if not cands:
                 continue
